@@ -171,10 +171,10 @@ theorem inv_advanceCommit {cfg : Config} {s : AState} (hi : Inv cfg s) (l i : Na
     · exact Or.inr ⟨i, (s.nodes l).term, l, (s.nodes l).log, Nat.le_refl _, hg, by omega, hil, hti, ⟨Q, hQ, ha⟩, List.prefix_refl _⟩
 
 /-- `sendAE`: the request is a segment of the leader's log, which is the ghost log of its term. -/
-theorem inv_sendAE {cfg : Config} {s : AState} (hi : Inv cfg s) (l prev k : Nat)
+theorem inv_sendAE {cfg : Config} {s : AState} (hi : Inv cfg s) (l prev k stamp : Nat)
     (hl : (s.nodes l).role = .leader) (hp : prev ≤ (s.nodes l).log.length) :
-    Inv cfg { s with aes := ⟨(s.nodes l).term, prev, termAt (s.nodes l).log prev, ((s.nodes l).log.drop prev).take k, (s.nodes l).commit⟩ :: s.aes } := by
-  have hext : Ext s { s with aes := ⟨(s.nodes l).term, prev, termAt (s.nodes l).log prev, ((s.nodes l).log.drop prev).take k, (s.nodes l).commit⟩ :: s.aes } :=
+    Inv cfg { s with aes := ⟨(s.nodes l).term, prev, termAt (s.nodes l).log prev, ((s.nodes l).log.drop prev).take k, (s.nodes l).commit, stamp⟩ :: s.aes } := by
+  have hext : Ext s { s with aes := ⟨(s.nodes l).term, prev, termAt (s.nodes l).log prev, ((s.nodes l).log.drop prev).take k, (s.nodes l).commit, stamp⟩ :: s.aes } :=
     Ext.refl_of _ _ rfl rfl rfl
   refine { hi with msg_ok := ?_ }
   intro m hm
